@@ -114,6 +114,8 @@ def collect(ctx, sub="c01", extra=()):
             d["stages"][r[2]] = r[3]
         elif r[1] == "GENV":
             d["genv"] = r[2]
+        elif r[1] == "SIG":
+            d["sig"] = (r[2], r[3])
         elif r[1] == "GOENV":
             d["goenv"] = r[2]
         elif r[1] == "AANF":
@@ -438,6 +440,11 @@ def run(ctx):
             first_of_group.setdefault(tuple(k.split(":")[1:3]), k)
     pipe_cov = c01pipe.evaluate(ctx, {k: v for k, v in progs.items() if not k.startswith("names:") or k in first_of_group.values()})
     _ph['c01pipe'] = round(_t.time() - _t0, 1)
+    # type soundness of Sem / static dispatch of trait calls on the same real dumps (tools/props/tsound.py)
+    from props import tsound
+    _t0 = _t.time()
+    ts_cov = tsound.evaluate(ctx, progs)
+    _ph['tsound'] = round(_t.time() - _t0, 1)
     rejected = sum(1 for d in progs.values() if "reject" in d)
     panics = [d for d in progs.values() if "panic" in d]
     ctx.violations.sort(key=lambda v: len(v[2].get("src") or "x" * 10**6))
@@ -458,6 +465,7 @@ def run(ctx):
         "generator_rejected": rejected, "compiler_panics_seen(owned by C04)": len(panics),
         "generator_features": feats,
         "pipeline_composition": pipe_cov,
+        "type_soundness_and_static_dispatch": ts_cov,
         "name_catalogue(local binder spelled like a package-level name, program vs fresh-named twin)": alpha_cov,
     }
     # ---- the Go back end (go/compile.rs): model = implementation, Sem(ANF) vs Go.Sem(Go) on its stream
@@ -473,5 +481,6 @@ def run(ctx):
         "go_pprint.rs is tied separately: the printed text of every program is parsed back by harness/src/goparse.rs (Go precedence, composite-literal rule) and must equal the AST with expression type annotations erased",
     ]
     ctx.assumptions += c01pipe.ASSUMPTIONS
+    ctx.assumptions += tsound.ASSUMPTIONS
     tb = ["Lean 4 (compiled model executable)", "Sem/Go.Sem definitions", "SrcSem definition", "harness/src/dump.rs, godump.rs (IR serialisers)", "harness/src/astdump.rs (ast::File serialiser)", "tools/props/c01.py"]
     return ctx.finish("translation_validation", cov, tb, "gomlmodel srcsem + gomlmodel sem (Lean-compiled SrcSem / Sem / Go.Sem on the real AST and stage dumps)")
